@@ -126,7 +126,10 @@ def main():
     obs = [o for o in P["obligations"] if o["kind"] != "canary"]; own = [o for o in obs if o["own"]]
     canaries = [o for o in P["obligations"] if o["kind"] == "canary"]
     vacuous = [o for o in canaries if not o["ok"]]
-    failed = [o for o in own if not o["ok"]]
+    # a failed `static` obligation is a sufficient syntactic condition that no longer holds: undecided, never a verdict
+    for o in own:
+        if o["kind"] == "static" and not o["ok"]: P["undecided"].append((o["name"], "structural sufficient condition does not hold on this source: " + str(getattr(o["_o"], "detail", ""))[:200]))
+    failed = [o for o in own if not o["ok"] and o["kind"] != "static"]
     bviol = (B or {}).get("violations", []) if B else []
     # functions whose hypotheses are contradictory are treated as undecided, never as proved
     vac_fns = {o["name"].split(":")[0] for o in vacuous}
